@@ -39,6 +39,7 @@ const (
 )
 
 type scenario struct {
+	splitMods int // scopes whose two modifier tables were written as two `modify` directives
 	tag        string
 	al         *alphabet
 	g          *gen
@@ -99,6 +100,7 @@ func (sc *scenario) load() {
 	defer mx.CheckUnref(chk)
 	r.pipe(0, sc.top)
 	sc.text = r.sb.String()
+	sc.splitMods = r.splitMods
 	sc.pl, sc.loadErr = mx.BuildPipeline(sc.text, nil)
 }
 
@@ -505,6 +507,7 @@ func TestVerif(t *testing.T) {
 				return
 			}
 			r.Count("configs_loaded", 1)
+			r.Count("scopes_with_two_modify_directives", int64(sc.splitMods))
 			if i < 2 {
 				r.Sample(map[string]any{"config": sc.text})
 			}
@@ -644,6 +647,7 @@ func TestVerif(t *testing.T) {
 				return
 			}
 			r.Count("configs_loaded", 1)
+			r.Count("scopes_with_two_modify_directives", int64(sc.splitMods))
 			rt := &router{al: al, stats: map[string]int{}}
 			kinds := map[string]bool{}
 			ls, ds := al.locals[envS.l].sp, al.domains[envS.d].sp
